@@ -1,10 +1,12 @@
 -------------------------------- MODULE ZCkpt --------------------------------
 (* Checkpoints of a ZanRedisDB store (property C14).                           *)
 (*                                                                             *)
-(* A store's content is the log prefix it has applied: a sequence of entry     *)
-(* ids (every entry is a distinct, non-idempotent write), so its length is the *)
-(* applied log index.  A checkpoint (term, idx) |-> image is taken by the      *)
-(* apply loop at index idx in three steps that belong to three goroutines      *)
+(* There is one replicated log; entry k is the k-th write (every entry is a    *)
+(* distinct, non-idempotent write) and log[k] is its raft term.  A store's     *)
+(* data are a function of the index it has applied: the effect of              *)
+(* log[1..applied[s]].  A checkpoint named (term, idx) holds an image, itself  *)
+(* an index.  It is taken by the apply loop at index idx in three steps that   *)
+(* belong to three goroutines                                                  *)
 (*   BackupBegin   the apply loop asks for a backup and blocks                 *)
 (*                 (node/state_machine.go GetSnapshot -> rockredis Backup),    *)
 (*   BackupCut     the engine fixes the view that goes into the checkpoint     *)
@@ -16,93 +18,88 @@
 (* timer - an assumption of the code that MC_ZCkpt_nocut shows to be           *)
 (* necessary.                                                                  *)
 (*                                                                             *)
-(* Restore(s, c) replaces the store's content by the image of a checkpoint in  *)
-(* the store's backup directory (same node after further writes; another node  *)
-(* after Fetch copied the directory).  Purge removes checkpoints; the design   *)
-(* allows it only below the latest recorded raft snapshot index.               *)
+(* Restore(s, c) makes the store's data the image of a checkpoint in its       *)
+(* backup directory (same node after further writes; another node after Fetch  *)
+(* copied the directory); the store then re-applies the log from there, as a   *)
+(* restarted node or a follower that installed a snapshot does.  Purge removes *)
+(* checkpoints; the design allows it only below the latest recorded raft       *)
+(* snapshot index.                                                             *)
 EXTENDS Integers, Sequences, FiniteSets
 
-CONSTANTS Stores,            \* store ids (1 = the node that writes first, others fetch)
+CONSTANTS Stores,            \* store ids
           CutBeforeNotify,   \* TRUE: the engine's cut precedes the release of the apply loop
           PurgeBelowSnapOnly,\* TRUE: purge only removes checkpoints below the recorded snapshot
           RestoreCopies,     \* TRUE: restore copies out of the checkpoint (FALSE: moves files)
           SharedFilesSafe    \* TRUE: later writes never alter files shared with a checkpoint
 
-VARIABLES content,   \* [Stores -> Seq(Nat)]  applied log prefix = data of the store
-          term,      \* [Stores -> Nat]       raft term the store currently applies in
-          gterm,     \* Nat                   highest term handed out
-          nextId,    \* Nat                   next fresh entry id
+VARIABLES log,       \* Seq(Nat)              term of every entry of the replicated log
+          applied,   \* [Stores -> Nat]       index the store has applied = its data
           ckpts,     \* [Stores -> SUBSET Ckpt] checkpoints in the store's backup directory
           flight,    \* [Stores -> in-flight backup record]
           snapIdx,   \* [Stores -> Nat]       latest recorded raft snapshot index
           born,      \* history: name -> image the checkpoint had when it was completed
-          asOf,      \* history: name -> store content when the backup was requested
           gone       \* history: set of [s, t, i, snap] - checkpoints that disappeared
 
-cvars == <<content, term, gterm, nextId, ckpts, flight, snapIdx, born, asOf, gone>>
+cvars == <<log, applied, ckpts, flight, snapIdx, born, gone>>
 
-Max(S)      == CHOOSE x \in S : \A y \in S : y <= x
-NoNames     == [n \in {} |-> <<>>]
+NoNames     == [n \in {} |-> 0]
 Name(t, i)  == <<t, i>>
 NameOf(c)   == <<c.t, c.i>>
-Idle        == [ph |-> "idle", t |-> 0, i |-> 0, img |-> <<>>, notified |-> FALSE]
+Idle        == [ph |-> "idle", t |-> 0, i |-> 0, img |-> 0, notified |-> FALSE]
 Busy(s)     == flight[s].ph # "idle"
 ApplyLoopRuns(s) == flight[s].ph = "idle" \/ flight[s].notified
 
 Lookup(s, t, i) == CHOOSE c \in ckpts[s] : c.t = t /\ c.i = i
 Has(s, t, i)    == \E c \in ckpts[s] : c.t = t /\ c.i = i
+Put(f, k, v)    == [x \in DOMAIN f \cup {k} |-> IF x = k THEN v ELSE f[x]]
 
 CInit ==
-  /\ content = [s \in Stores |-> <<>>]
-  /\ term    = [s \in Stores |-> s]      \* distinct terms: a name identifies one log prefix
-  /\ gterm   = Max(Stores)
-  /\ nextId  = 1
+  /\ log     = <<>>
+  /\ applied = [s \in Stores |-> 0]
   /\ ckpts   = [s \in Stores |-> {}]
   /\ flight  = [s \in Stores |-> Idle]
   /\ snapIdx = [s \in Stores |-> 0]
   /\ born    = NoNames
-  /\ asOf    = NoNames
   /\ gone    = {}
 
 -------------------------------------------------------------------------------
-(* the apply loop applies one more entry (a fresh one, or - after a restore -  *)
-(* a replayed one: the trace specification passes the id)                      *)
-WriteId(s, id) ==
+(* the apply loop applies the next entry: one that is in the log already       *)
+(* (replay after a restore, a follower catching up) or a new one of term t     *)
+Apply(s, t) ==
   /\ ApplyLoopRuns(s)
-  /\ content' = [content EXCEPT ![s] = Append(@, id)]
-  /\ nextId'  = IF id >= nextId THEN id + 1 ELSE nextId
+  /\ IF applied[s] < Len(log)
+     THEN t = log[applied[s] + 1] /\ UNCHANGED log
+     ELSE (Len(log) = 0 \/ t >= log[Len(log)]) /\ log' = Append(log, t)
+  /\ applied' = [applied EXCEPT ![s] = @ + 1]
   /\ IF SharedFilesSafe
      THEN UNCHANGED ckpts
      ELSE \* (mutant) the write goes into files the store shares with the checkpoints
           \* that hold exactly its current data
-          ckpts' = [ckpts EXCEPT ![s] = {IF c.img = content[s] THEN [c EXCEPT !.img = Append(@, id)] ELSE c : c \in @}]
-  /\ UNCHANGED <<term, gterm, flight, snapIdx, born, asOf, gone>>
-
-Write(s) == WriteId(s, nextId)
+          ckpts' = [ckpts EXCEPT ![s] = {IF c.img = applied[s] THEN [c EXCEPT !.img = @ + 1] ELSE c : c \in @}]
+  /\ UNCHANGED <<flight, snapIdx, born, gone>>
 
 \* a step that must not change the data (flush / compaction of the engine)
 Compact(s) == ApplyLoopRuns(s) /\ UNCHANGED cvars
 
-Put(f, k, v) == [x \in DOMAIN f \cup {k} |-> IF x = k THEN v ELSE f[x]]
-
 BackupBegin(s) ==
   /\ ~Busy(s)
-  /\ Len(content[s]) > 0
-  /\ flight' = [flight EXCEPT ![s] = [ph |-> "begun", t |-> term[s], i |-> Len(content[s]),
-                                      img |-> <<>>, notified |-> FALSE]]
-  /\ asOf'   = Put(asOf, Name(term[s], Len(content[s])), content[s])
-  /\ UNCHANGED <<content, term, gterm, nextId, ckpts, snapIdx, born, gone>>
+  /\ applied[s] > 0
+  /\ flight' = [flight EXCEPT ![s] = [ph |-> "begun", t |-> log[applied[s]], i |-> applied[s],
+                                      img |-> 0, notified |-> FALSE]]
+  /\ UNCHANGED <<log, applied, ckpts, snapIdx, born, gone>>
+
+CutFlight(s) == [flight[s] EXCEPT !.ph = "cut", !.img = applied[s]]
 
 BackupCut(s) ==
   /\ flight[s].ph = "begun"
-  /\ flight' = [flight EXCEPT ![s].ph = "cut", ![s].img = content[s]]
-  /\ UNCHANGED <<content, term, gterm, nextId, ckpts, snapIdx, born, asOf, gone>>
+  /\ flight' = [flight EXCEPT ![s] = CutFlight(s)]
+  /\ UNCHANGED <<log, applied, ckpts, snapIdx, born, gone>>
 
 BackupNotify(s) ==
   /\ Busy(s) /\ ~flight[s].notified
   /\ CutBeforeNotify => flight[s].ph = "cut"
   /\ flight' = [flight EXCEPT ![s].notified = TRUE]
-  /\ UNCHANGED <<content, term, gterm, nextId, ckpts, snapIdx, born, asOf, gone>>
+  /\ UNCHANGED <<log, applied, ckpts, snapIdx, born, gone>>
 
 \* the directory is complete; an older directory of the same name is replaced
 BackupDone(s) ==
@@ -112,13 +109,13 @@ BackupDone(s) ==
      IN /\ ckpts' = [ckpts EXCEPT ![s] = {x \in @ : NameOf(x) # NameOf(c)} \cup {c}]
         /\ born'  = Put(born, NameOf(c), f.img)
   /\ flight' = [flight EXCEPT ![s] = Idle]
-  /\ UNCHANGED <<content, term, gterm, nextId, snapIdx, asOf, gone>>
+  /\ UNCHANGED <<log, applied, snapIdx, gone>>
 
-\* a raft snapshot whose data is checkpoint c has been recorded (snap file + WAL marker)
+\* a raft snapshot whose data is checkpoint (t, i) has been recorded (snap file + WAL marker)
 RecordSnap(s, t, i) ==
   /\ Has(s, t, i) /\ i >= snapIdx[s]
   /\ snapIdx' = [snapIdx EXCEPT ![s] = i]
-  /\ UNCHANGED <<content, term, gterm, nextId, ckpts, flight, born, asOf, gone>>
+  /\ UNCHANGED <<log, applied, ckpts, flight, born, gone>>
 
 Purgeable(s, c) == PurgeBelowSnapOnly => c.i < snapIdx[s]
 
@@ -130,20 +127,18 @@ Purge(s, V) ==
   /\ \A c \in V : Purgeable(s, c)
   /\ ckpts' = [ckpts EXCEPT ![s] = @ \ V]
   /\ Lose(s, V)
-  /\ UNCHANGED <<content, term, gterm, nextId, flight, snapIdx, born, asOf>>
+  /\ UNCHANGED <<log, applied, flight, snapIdx, born>>
 
-\* the store's data become the checkpoint's image; the store continues in a new term
+\* the store's data become the checkpoint's image
 Restore(s, t, i) ==
   /\ ~Busy(s)
   /\ Has(s, t, i)
   /\ LET c == Lookup(s, t, i)
-     IN /\ content' = [content EXCEPT ![s] = c.img]
+     IN /\ applied' = [applied EXCEPT ![s] = c.img]
         /\ IF RestoreCopies
            THEN UNCHANGED <<ckpts, gone>>
            ELSE ckpts' = [ckpts EXCEPT ![s] = @ \ {c}] /\ Lose(s, {c})
-  /\ gterm' = gterm + 1
-  /\ term'  = [term EXCEPT ![s] = gterm + 1]
-  /\ UNCHANGED <<nextId, flight, snapIdx, born, asOf>>
+  /\ UNCHANGED <<log, flight, snapIdx, born>>
 
 \* store `to` copies checkpoint (t, i) out of store `from`'s backup directory
 Fetch(from, to, t, i) ==
@@ -151,18 +146,16 @@ Fetch(from, to, t, i) ==
   /\ Has(from, t, i)
   /\ LET c == Lookup(from, t, i)
      IN ckpts' = [ckpts EXCEPT ![to] = {x \in @ : NameOf(x) # NameOf(c)} \cup {c}]
-  /\ UNCHANGED <<content, term, gterm, nextId, flight, snapIdx, born, asOf, gone>>
+  /\ UNCHANGED <<log, applied, flight, snapIdx, born, gone>>
 
 -------------------------------------------------------------------------------
 (* Properties.                                                                 *)
 
-\* the image of every checkpoint is the store's data as of the index in its name:
-\* what Restore hands back is exactly the log prefix of length i
+\* the image of every checkpoint is the data as of the index in its name: what
+\* Restore hands back is exactly the effect of log[1..i]
 CheckpointExact ==
   \A s \in Stores : \A c \in ckpts[s] :
-     /\ NameOf(c) \in DOMAIN asOf
-     /\ c.img = asOf[NameOf(c)]
-     /\ Len(c.img) = c.i
+     c.img = c.i /\ c.i \in 1..Len(log) /\ c.t = log[c.i]
 
 \* nothing (restore, later writes through shared files, another backup) changes a
 \* completed checkpoint
